@@ -398,6 +398,15 @@ func (store *KeyStore) WriteKeyFile(filename string, data []byte, mode os.FileMo
 	if err != nil {
 		return err
 	}
+	// Do not leave the temporary file behind when the update fails: a stray file in the key directory
+	// breaks key listing and cache warm-up. After a successful rename there is nothing left to remove.
+	defer func() {
+		if err != nil {
+			if rmErr := store.fs.Remove(tmpFilename); rmErr != nil && !os.IsNotExist(rmErr) {
+				log.WithError(rmErr).WithField("path", tmpFilename).Warn("Failed to remove temporary key file")
+			}
+		}
+	}()
 	err = store.fs.WriteFile(tmpFilename, data, mode)
 	if err != nil {
 		return err
